@@ -72,6 +72,19 @@ def native_check(kind, n, env=None, seed=0):
             want = w1[0] * w2[0] - w1[1] * w2[1]
             if not torch.allclose(got, want, rtol=1e-9, atol=1e-12):
                 fails.append(("batch of %d: row i is not Re[w(s'_i,s_i) w(s'_(i-1),s_(i-1))]" % Bn, A))
+    # history: one SWAP object that has served states with other numbers of sites gives the same values as a fresh one
+    for A in ([0], list(range(n))[-1:], list(range(n))):
+        for ms in ((n + 1, n + 2), tuple(m for m in (1, n - 1) if 1 <= m < n and max(A) < m)):
+            if not ms:
+                continue
+            ob = SWAP(A)
+            for m in ms:
+                so = C.make_state(kind, m, 2, 1)
+                ob.apply(so, so.generate_hilbert_space(m)[:3].clone())
+            bt = space[torch.randperm(D)[: min(D, 4)]].clone()
+            got, want = ob.apply(st, bt.clone()), SWAP(A).apply(st, bt.clone())
+            if tuple(got.shape) != tuple(want.shape) or not torch.allclose(got, want, rtol=1e-12, atol=1e-14):
+                fails.append(("a SWAP object used on states with %s sites before gives other values than a fresh one" % (ms,), A))
     # cyclic pairing: every sample once in each replica role -> permutation-covariance of the batch result
     b = space[torch.randperm(D)][: min(D, 4)].clone()
     v = SWAP([0]).apply(st, b)
